@@ -18,7 +18,7 @@ for d in seeded/C*/; do
   cp evidence/$prop.json build/evidence-$prop.keep 2>/dev/null
   git -C $repo apply $verif/$d/patch.diff || { echo "$name: patch does not apply" | tee -a $out; continue; }
   python3 tools/check.py $prop --tier quick --budget $budget > build/regress.log 2>&1; rc=$?
-  git -C $repo checkout -- .
+  git -C $repo checkout -- . ; git -C $repo clean -fdq src
   cp build/evidence-$prop.keep evidence/$prop.json 2>/dev/null
   first=$(grep -m1 -E "^(VIOLATION|SANITIZER|RACE|NONTERMINATION|DEADLOCK|ABORT|EXIT|CRASH)/" build/regress.log | cut -c1-110)
   echo "$name $prop rc=$rc expected=1 $( [ $rc -eq 1 ] && echo OK || echo MISSED ) | $first" | tee -a $out
@@ -29,7 +29,7 @@ for d in seeded/benign/*/; do
     cp evidence/$prop.json build/evidence-$prop.keep 2>/dev/null
     git -C $repo apply $verif/$v || { echo "$name/$(basename $v): does not apply" | tee -a $out; continue; }
     python3 tools/check.py $prop --tier quick --budget $budget > build/regress.log 2>&1; rc=$?
-    git -C $repo checkout -- .
+    git -C $repo checkout -- . ; git -C $repo clean -fdq src
     cp build/evidence-$prop.keep evidence/$prop.json 2>/dev/null
     echo "benign $name/$(basename $v .diff) $prop rc=$rc expected=0 $( [ $rc -eq 0 ] && echo OK || echo ALARM )" | tee -a $out
   done
